@@ -87,9 +87,9 @@ type c16Env struct {
 	seq     int
 }
 
-func newC16Env() *c16Env {
+func c16NewEnv() *c16Env {
 	log.SetOutput(io.Discard)
-	e := &c16Env{host: loopbackHost(), backend: doubles.NewMemBackend()}
+	e := &c16Env{host: c15LoopbackHost(), backend: doubles.NewMemBackend()}
 	e.backend.Log.Hook = func(op *doubles.Op) error {
 		if e.failOp != "" && op.Kind == e.failOp && strings.Contains(op.Key, "challenge_tokens") {
 			return errors.New("injected storage failure")
@@ -127,9 +127,9 @@ func (e *c16Env) setup(in c16In, r *rand.Rand) (*c16Hist, error) {
 	for _, kind := range in.Addrs {
 		switch kind {
 		case "free":
-			h.addrs = append(h.addrs, fmt.Sprintf("%s:%d", e.host, freePort(e.host)))
+			h.addrs = append(h.addrs, fmt.Sprintf("%s:%d", e.host, c15FreePort(e.host)))
 		case "occupied":
-			ln, err := net.Listen("tcp", fmt.Sprintf("%s:%d", e.host, freePort(e.host)))
+			ln, err := net.Listen("tcp", fmt.Sprintf("%s:%d", e.host, c15FreePort(e.host)))
 			if err != nil {
 				return nil, err
 			}
@@ -198,7 +198,7 @@ func (h *c16Hist) close() {
 	}
 }
 
-func dialable(addr string) bool {
+func c16Dialable(addr string) bool {
 	for try := 0; try < 2; try++ {
 		c, err := net.DialTimeout("tcp", addr, 300*time.Millisecond)
 		if err == nil {
@@ -240,7 +240,7 @@ func (e *c16Env) observe(h *c16Hist, err error) c16Snap {
 	s.probes = map[string]bool{}
 	for i, a := range h.addrs {
 		if h.in.Addrs[i] != "invalid" {
-			s.probes[a] = dialable(a)
+			s.probes[a] = c16Dialable(a)
 		}
 	}
 	keys := map[string]bool{}
@@ -353,7 +353,7 @@ func (e *c16Env) e2eOnce(h *c16Hist, i int) (failure string) {
 		ok := false
 		if len(cs.PeerCertificates) > 0 {
 			for _, ext := range cs.PeerCertificates[0].Extensions {
-				if ext.Id.Equal(oidACMEIdentifier) {
+				if ext.Id.Equal(c15OIDACMEIdentifier) {
 					ok = true
 				}
 			}
@@ -425,7 +425,7 @@ func (e *c16Env) runHistory(w *emit.Writer, in c16In, desc map[string]any, r *ra
 			enc.Str(h.addrs[o.Addr])
 		}
 		enc.Str(h.ik)
-		encChal(enc, c15Chal{Type: ch.Type, Token: ch.Token, KeyAuth: ch.KeyAuthorization, IDType: ch.Identifier.Type, Ident: ch.Identifier.Value})
+		c15EncChal(enc, c15Chal{Type: ch.Type, Token: ch.Token, KeyAuth: ch.KeyAuthorization, IDType: ch.Identifier.Type, Ident: ch.Identifier.Value})
 		enc.Str(ch.DNS01TXTRecordName()).Str(ch.DNS01KeyAuthorization())
 	}
 	var occ []string
@@ -579,8 +579,8 @@ func (e *c16Env) runHistory(w *emit.Writer, in c16In, desc map[string]any, r *ra
 	return nil
 }
 
-// interleavings enumerates all orders of P_i / C_i (i < n) with P_i before C_i.
-func interleavings(n int) [][]c16Step {
+// c16Interleavings enumerates all orders of P_i / C_i (i < n) with P_i before C_i.
+func c16Interleavings(n int) [][]c16Step {
 	var out [][]c16Step
 	state := make([]int, n) // 0 not presented, 1 pending, 2 done
 	var cur []c16Step
@@ -604,7 +604,7 @@ func interleavings(n int) [][]c16Step {
 	return out
 }
 
-func randomInterleaving(r *rand.Rand, n int) []c16Step {
+func c16RandomInterleaving(r *rand.Rand, n int) []c16Step {
 	state := make([]int, n)
 	var cur []c16Step
 	for len(cur) < 2*n {
@@ -625,7 +625,7 @@ func runC16(tier string, seed int64, outdir string, replay string) (retErr error
 	}()
 	w := emit.NewWriter(outdir, "C16", tier, seed)
 	defer w.Close()
-	env := newC16Env()
+	env := c16NewEnv()
 	defer env.stop()
 	r := rand.New(rand.NewSource(seed))
 	thorough := tier == "thorough"
@@ -701,21 +701,21 @@ func runC16(tier string, seed int64, outdir string, replay string) (retErr error
 	// (one address is never used for both kinds: the listener speaks the protocol of whoever opened
 	// it, and the two solvers signal "closed" through different flags; not a configuration that exists)
 	for _, kinds := range [][2]string{{"http", "http"}, {"tlsalpn", "tlsalpn"}} {
-		for _, il := range interleavings(2) {
+		for _, il := range c16Interleavings(2) {
 			if err := run(c16In{Addrs: []string{"free"}, Orders: []c16Order{O(kinds[0], 0, "a"), O(kinds[1], 0, "b")}, Steps: il},
 				map[string]any{"shape": "two-shared-address"}); err != nil {
 				return err
 			}
 		}
 	}
-	for _, il := range interleavings(2) {
+	for _, il := range c16Interleavings(2) {
 		if err := run(c16In{Addrs: []string{"free", "free"}, Orders: []c16Order{O("http", 0, "a"), O("tlsalpn", 1, "b")}, Steps: il},
 			map[string]any{"shape": "two-side-by-side"}); err != nil {
 			return err
 		}
 	}
 	// ---- B. three orders, two share an address
-	il3 := interleavings(3)
+	il3 := c16Interleavings(3)
 	nB := 30
 	if thorough {
 		nB = len(il3)
@@ -732,7 +732,7 @@ func runC16(tier string, seed int64, outdir string, replay string) (retErr error
 		}
 	}
 	// ---- C. one fault at every call position of every interleaving of two orders on one address
-	for _, il := range interleavings(2) {
+	for _, il := range c16Interleavings(2) {
 		for pos := range il {
 			for _, f := range []string{"cancel-honour", "cancel-ignore", "storage"} {
 				steps := append([]c16Step(nil), il...)
@@ -753,7 +753,7 @@ func runC16(tier string, seed int64, outdir string, replay string) (retErr error
 		}
 	}
 	// ---- D. address held by someone else / cannot be bound
-	for k, il := range interleavings(2) {
+	for k, il := range c16Interleavings(2) {
 		kindD := []string{"http", "tlsalpn"}[k%2]
 		if err := run(c16In{Addrs: []string{"occupied"}, Orders: []c16Order{O(kindD, 0, "a"), O(kindD, 0, "b")}, Steps: il},
 			map[string]any{"shape": "address-in-use"}); err != nil {
@@ -767,7 +767,7 @@ func runC16(tier string, seed int64, outdir string, replay string) (retErr error
 		}
 	}
 	// ---- E. DNS: two challenges share a record name (example.com and *.example.com), one elsewhere
-	for _, il := range interleavings(2) {
+	for _, il := range c16Interleavings(2) {
 		for _, f := range []string{"none", "append-fails-0", "delete-fails-0", "cancel-present-1", "cancel-cleanup-0", "cancel-all"} {
 			steps := append([]c16Step(nil), il...)
 			for i := range steps {
@@ -828,7 +828,7 @@ func runC16(tier string, seed int64, outdir string, replay string) (retErr error
 			}
 			in.Orders = append(in.Orders, O(kind, a, id))
 		}
-		in.Steps = randomInterleaving(r, n)
+		in.Steps = c16RandomInterleaving(r, n)
 		for i := range in.Steps {
 			switch r.Intn(9) {
 			case 0:
